@@ -365,3 +365,36 @@ def apply (u : Updater) (sc : Schema) (live config : TV) (version : String) (man
   | .panic => .panic
 
 end SMD
+
+namespace SMD
+
+/-! ### a lossless converter: field renaming by version suffix
+
+Model of the `renamingConverter` of `merge/multiple_appliers_test.go`: the version label is the name
+of the object's type; converting renames every map key that ends with the old version into the same
+key ending with the new version. -/
+
+def renameKey (old new : String) (k : String) : String :=
+  if k.endsWith old && old != "" then (k.dropEnd old.length).toString ++ new else k
+
+mutual
+def renameFields (old new : String) : Value → Value
+  | .list l => .list (renameFieldsList old new l)
+  | .map m => .map (renameFieldsEntries old new m)
+  | v => v
+def renameFieldsList (old new : String) : List Value → List Value
+  | [] => []
+  | v :: vs => renameFields old new v :: renameFieldsList old new vs
+def renameFieldsEntries (old new : String) : List (String × Value) → List (String × Value)
+  | [] => []
+  | (k, v) :: rest => insertField (renameKey old new k, renameFields old new v) (renameFieldsEntries old new rest)
+end
+
+/-- `renamingConverter.Convert` (the output is assumed valid in the target type: losslessness) -/
+def Converter.renaming : Converter :=
+  ⟨fun tv v =>
+    match tv.type.named with
+    | some inV => .ok ⟨renameFields inV v tv.value, TypeRef.mk (some v) Atom.none none⟩
+    | none => .fail⟩
+
+end SMD
